@@ -274,6 +274,8 @@ func sdpFor(sc scenario) []byte {
 		s += fmt.Sprintf("m=audio 0 RTP/AVP 97\r\na=rtpmap:97 MPEG4-GENERIC/%d/2\r\na=fmtp:97 profile-level-id=1;mode=AAC-hbr;sizelength=13;indexlength=3;indexdeltalength=3; config=%x\r\na=control:streamid=%d\r\n", sc.Rate, ascFor(sc.Rate), tr)
 	} else if sc.Audio == "pcma" {
 		s += fmt.Sprintf("m=audio 0 RTP/AVP 8\r\na=rtpmap:8 PCMA/8000\r\na=control:streamid=%d\r\n", tr)
+	} else if sc.Audio == "opus" {
+		s += fmt.Sprintf("m=audio 0 RTP/AVP 111\r\na=rtpmap:111 opus/48000/2\r\na=control:streamid=%d\r\n", tr)
 	}
 	return []byte(s)
 }
@@ -367,6 +369,8 @@ func run(sc scenario) (res []result, compared int, infra error) {
 			} else {
 				if sc.Audio == "aac" {
 					ap = append(ap, ref.BuildRtp(ref.Rtp{Marker: true, PT: 97, Seq: aseq, Ts: f.ts, Ssrc: 8, Payload: ref.PackAacHbr(f.au)}))
+				} else if sc.Audio == "opus" {
+					ap = append(ap, ref.BuildRtp(ref.Rtp{Marker: true, PT: 111, Seq: aseq, Ts: f.ts, Ssrc: 8, Payload: f.au}))
 				} else {
 					ap = append(ap, ref.BuildRtp(ref.Rtp{Marker: true, PT: 8, Seq: aseq, Ts: f.ts, Ssrc: 8, Payload: f.au}))
 				}
@@ -500,6 +504,9 @@ func run(sc scenario) (res []result, compared int, infra error) {
 				pkt.PayloadType = base.AvPacketPtAac
 				if sc.Audio == "pcma" {
 					pkt.PayloadType = base.AvPacketPtG711A
+				}
+				if sc.Audio == "opus" {
+					pkt.PayloadType = base.AvPacketPtOpus
 				}
 				pkt.Payload = f.au
 			}
@@ -766,12 +773,15 @@ func main() {
 	vShapes := []string{"K", "Kaud", "Kbig", "K2", "Psk", "P", "P1", "Pmid", "Ps"}
 	aShapes := []string{"A", "A1", "A3", "A50"}
 	for _, src := range []string{"rtsp", "ps", "cust-annexb4", "cust-annexb3", "cust-avcc"} {
-		codecs := []cd{{"avc", "aac", 44100}, {"hevc", "aac", 48000}, {"avc", "pcma", 8000}, {"avc", "", 0}, {"", "aac", 44100}, {"", "aac", 8000}, {"", "aac", 96000}, {"", "aac", 16000}, {"hevc", "", 0}}
+		codecs := []cd{{"avc", "aac", 44100}, {"hevc", "aac", 48000}, {"avc", "pcma", 8000}, {"avc", "opus", 48000}, {"avc", "", 0}, {"", "aac", 44100}, {"", "aac", 8000}, {"", "aac", 96000}, {"", "aac", 16000}, {"hevc", "", 0}}
 		if r.Quick() {
-			codecs = codecs[:6]
+			codecs = codecs[:7]
 		}
 		for _, c := range codecs {
-			if src == "ps" && c.v == "" {
+			if src == "ps" && (c.v == "" || c.a == "opus") {
+				continue // (the program stream map has no stream type for Opus)
+			}
+			if c.a == "opus" && src != "rtsp" && src != "cust-annexb4" {
 				continue
 			}
 			var sh []string
